@@ -257,6 +257,46 @@ def initchain_program(has_init, err_base):
     return prog
 
 
+def override_program(matrix):
+    """dispatch matrix: classes K0 < K1 < K2, methods m0.. ; per class and method: 0 absent, 1 plain, 2 calls super.m, 3 calls self.m(next).
+    Every method of every class is called on an instance of every class (invoke and get-then-call), and all instances go through one
+    shared call site per method in the order K0 K1 K2 K2 K1 K0."""
+    prog = []
+    prev = None
+    nm = len(matrix[0])
+    for k, row in enumerate(matrix):
+        members = []
+        for j, st in enumerate(row):
+            tag = S("K%d.m%d" % (k, j))
+            if st == 1:
+                members.append(("method", "m%d" % j, [], [["return", tag]]))
+            elif st == 2:
+                members.append(("method", "m%d" % j, [], [["return", cat(tag, S(">"), ["super", "m%d" % j, []])]]))
+            elif st == 3:
+                members.append(("method", "m%d" % j, [], [["return", cat(tag, S("~"), inv(SELF, "m%d" % (j + 1)))]]))
+        prog.append(["class", "K%d" % k, prev, members])
+        prev = "K%d" % k
+    for j in range(nm):
+        prog.append(["fn", "site%d" % j, ["o"], [["return", inv(V("o"), "m%d" % j)]]])
+    for k in range(len(matrix)):
+        prog.append(["let", "o%d" % k, call("K%d" % k)])
+    for k in range(len(matrix)):
+        for j in range(nm):
+            prog.append(["try", [["print", [S("i%d%d" % (k, j)), inv(V("o%d" % k), "m%d" % j)]]], "e", None, [["print", [S("i%d%d!" % (k, j)), inv(inv(V("e"), "cls"), "name")]]]])
+            prog.append(["try", [["let", "b%d%d" % (k, j), ["get", V("o%d" % k), "m%d" % j]], ["print", [S("g%d%d" % (k, j)), call(V("b%d%d" % (k, j)))]]], "e", None,
+                         [["print", [S("g%d%d!" % (k, j)), inv(inv(V("e"), "cls"), "name")]]]])
+    order = list(range(len(matrix))) + list(reversed(range(len(matrix))))
+    for j in range(nm):
+        for k in order:
+            prog.append(["try", [["print", [S("s%d%d" % (k, j)), call("site%d" % j, V("o%d" % k))]]], "e", None, [["print", [S("s%d%d!" % (k, j)), inv(inv(V("e"), "cls"), "name")]]]])
+    return prog
+
+
+def override_rows(nm):
+    per_method = [(0, 1, 2, 3) if j < nm - 1 else (0, 1, 2) for j in range(nm)]
+    return list(itertools.product(*per_method))
+
+
 class C03(Check):
     id = "C03"
     level = "exploration"
@@ -276,7 +316,7 @@ class C03(Check):
                     for shape in LV_SHAPES:
                         for compound in (False, True):
                             yield ("lvalue", tuple(of), tuple(inner_fields), sup, shape, compound)
-        for depth in (2, 3, 4):
+        for depth in ((2, 3, 4, 5, 6) if tier == "thorough" else (2, 3, 4)):
             for has_init in itertools.product((False, True), repeat=depth):
                 for err_base in (None,):  # the reference does not model the built-in Error.init as a method reachable by name
                     yield ("initchain", has_init, err_base)
@@ -285,8 +325,11 @@ class C03(Check):
                 for early in (False, True):
                     for sub in (False, True):
                         yield ("selfcap", where, use, early, sub)
+        # dispatch matrices: which class of a chain of three defines which method how
+        for m in itertools.product(override_rows(3 if tier == "thorough" else 2), repeat=3):
+            yield ("override", m)
         # class factories: the same class declaration evaluated several times and stacked
-        for d in (1, 2, 3):
+        for d in ((1, 2, 3, 4) if tier == "thorough" else (1, 2, 3)):
             for seq in itertools.product("FG", repeat=d):
                 for leaf in (False, True):
                     n = d + (1 if leaf else 0)
@@ -303,6 +346,8 @@ class C03(Check):
             return selfcap_program(*spec[1:])
         if spec[0] == "initchain":
             return initchain_program(spec[1], spec[2])
+        if spec[0] == "override":
+            return override_program(spec[1])
         return program(A_INIT[spec[0]], spec[1], B_FIELDS[spec[2]], *spec[3:])
 
     def describe(self, spec):
@@ -310,6 +355,8 @@ class C03(Check):
             return "lvalue shape=%s compound=%s outer fields=%s (super=%s) inner fields=%s" % (spec[4], spec[5], list(spec[1]), spec[3], list(spec[2]))
         if spec[0] == "initchain":
             return "initialiser chain: levels with an init of their own=%s on top of %s" % (list(spec[1]), spec[2] or "no base class")
+        if spec[0] == "override":
+            return "dispatch matrix (rows K0<K1<K2, per method 0 absent / 1 plain / 2 calls super / 3 calls the next method on self): %s" % (list(map(list, spec[1])),)
         if spec[0] == "selfcap":
             return "self captured by a closure inside %s, closure %s, early return=%s, subclass=%s" % spec[1:]
         if spec[0] == "factory":
@@ -356,6 +403,9 @@ def main(tier):
     chk.rule = ("all combinations of: A.init field order (4) x B's super.init placement (3) x B's added fields/order (4) x C.init present x B overrides m x B overrides n x C "
                 "overrides m x field syntax (self.x | @x) = 1536 hierarchies; each program probes instances of A, B, C, D, B, A through one probe function (about 25 "
                 "guarded probes per instance: invoke, get-then-call, bound methods, dispatch through self, super, field reads/writes, += on own and foreign instance, "
-                "closures over self, undeclared names, static methods). non-trivial = every program")
+                "closures over self, undeclared names, static methods); lvalue, class-factory (depth <= 3, <= 4 thorough), self-capture and initialiser-chain (2-4 levels, 2-6 thorough) families; "
+                "dispatch matrices: a chain K0 < K1 < K2 in which every class defines each of 2 (quick) / 3 (thorough) methods as absent / plain / calling super / calling the next method on self "
+                "(12^3 = 1728, 48^3 = 110592 programs), every method called on an instance of every class by invoke, by get-then-call and through one shared call site per method visited K0 K1 K2 K2 K1 K0. "
+                "non-trivial = every program")
     merged = explore(chk, tier, cap_s=600)
     return report.finish(chk, tier, merged, t0)
